@@ -310,7 +310,7 @@ def step (st : St) (toks : List String) : St × String :=
     match kv? "out" [o] with
     | some "err" => (st, "true")
     | some "ok" => (st, "true")
-    | some _ => (st, "false panic")
+    | some o => (st, s!"false {o}")
     | none => (st, "bad-op")
   | _ => (st, "bad-op")
 
